@@ -4,11 +4,14 @@ from evalutil import *
 
 ID = "C04"
 LEVEL = "proof"
-MODULES = ["H3Proofs.Props.C04", "H3Proofs.Props.C04Children", "H3Proofs.Props.C04Valid", "H3Proofs.Props.C04Center", "H3Proofs.Props.C04Order"]
+MODULES = ["H3Proofs.Props.C04", "H3Proofs.Props.C04Children", "H3Proofs.Props.C04Valid", "H3Proofs.Props.C04Center", "H3Proofs.Props.C04Order", "H3Proofs.Props.C04Iter"]
 THEOREMS = "auto"
 ASSUMPTIONS = ["hand-written model of cellToParent/cellToChildrenSize/cellToCenterChild/iterInitParent/"
                "iterStepChild tied to the code by the correspondence check (exact list equality, order included)"]
-NOT_PROVED = ["centre coincidence in radians (float) is exercised by the evaluator only", "the loop-faithful iterator model (iterInitParent/iterStepChild) equals the specification-level enumeration: correspondence-tested (both against C), not proved"]
+ASSUMPTIONS.append("the loop-faithful iterator model (iterInitParent / iterStepChild with _skipDigit and the _incrementResDigit "
+                   "carry loop) is PROVED equal to the specification-level enumeration for every 64-bit parent and every child "
+                   "resolution (C04Iter.cellToChildren_eq), so the C04 theorems hold of the model that is compared with C")
+NOT_PROVED = ["centre coincidence in radians (float) is exercised by the evaluator only"]
 EXPLANATION = ("hierarchy theorems about the model (error codes, child counts, centre child) + exact "
                "correspondence of children lists with the real iterator; evaluator compares the real library "
                "with an independent python enumeration of the digit tree")
